@@ -29,7 +29,7 @@ def write_readme(sdir, results):
              "meta.json). `caught by` lists every check that exits 1 with a VIOLATION when the patch is applied (quick tier unless noted;",
              "only checks that were run against the change are listed - see RESULTS.json for the runs).", "",
              "| seeded change | breaks | what it does | needs | caught by |", "|---|---|---|---|---|"]
-    for n in sorted(d for d in os.listdir(sdir) if os.path.isdir(os.path.join(sdir, d))):
+    for n in sorted(d for d in os.listdir(sdir) if os.path.isfile(os.path.join(sdir, d, "meta.json"))):
         try:
             meta = json.load(open(os.path.join(sdir, n, "meta.json")))
         except Exception:
@@ -53,7 +53,7 @@ def main():
     names = [a for a in args if not a.startswith("--") and a not in ("quick", "thorough") and not a.endswith(".json")]
     sdir = os.path.join(ROOT, "seeded")
     names = [x for x in names if "/" not in x]
-    names = names or sorted(d for d in os.listdir(sdir) if os.path.isdir(os.path.join(sdir, d)))
+    names = names or sorted(d for d in os.listdir(sdir) if os.path.isfile(os.path.join(sdir, d, "meta.json")))
     shard = None
     if "--shard" in args:
         # --shard i/n: every n-th seeded change, in one scratch worktree that is kept (with its build cache) for the whole shard
